@@ -522,6 +522,9 @@ def rule_f(ctx):
     from .sources import rule_source, rule_small_sources
     rule_source(ctx, 'C06.e')
     rule_small_sources(ctx, 'C06.e')
+    # the observable-backed publishers of the Rx adapters: credit reaches one long-lived feeder (shared C20.g)
+    from .c20 import rule_g as c20g
+    c20g(ctx)
 
 
 def rule_e(ctx):
@@ -542,4 +545,4 @@ def rule_d(ctx):
     rule_gate_scope(ctx)
 
 
-RULES = [('C06.a', rule_a), ('C06.b', rule_b), ('C06.c', rule_c), ('C06.a', rule_g), ('C06.d', rule_e), ('C06.e', rule_f), ('C05.a+C05.b+C14.f', rule_d)]
+RULES = [('C06.a', rule_a), ('C06.b', rule_b), ('C06.c', rule_c), ('C06.a', rule_g), ('C06.d', rule_e), ('C06.e+C20.g', rule_f), ('C05.a+C05.b+C14.f', rule_d)]
